@@ -100,6 +100,8 @@ class DictRun:
             base *= 4
         if case.kind == "XBW":
             base *= 10
+        if case.kind == "FMINDEX":   # substring location walks up to one whole string per occurrence when the BWT sampling is sparse
+            base *= 8
         return int(base)
 
     def extract_findings(self, case, res):
